@@ -236,7 +236,12 @@ def _(c):
         c.require(sym.Or(b[0] != 0, b[1] != 0, b[2] != 0))
         w = c.world()
         beta = w.fn(f"{BETA}:beta")
-        orb = SymStateVector(list(r) + list(v), date=SymDate(0), form="cartesian", frame="F")
+        def elsewhere(self, frame=None, form=None, same=None):
+            # the state seen from another frame: unrelated numbers (uninterpreted functions of the state and of the frame asked for)
+            tag = str(getattr(frame, "name", frame))
+            return SymStateVector([sym.uf(f"seen_from_{tag}_{k}", *list(np.asarray(self))) for k in range(6)], date=self.date, form="cartesian", frame=frame,
+                                  __convert__=elsewhere)
+        orb = SymStateVector(list(r) + list(v), date=SymDate(0), form="cartesian", frame="F", __convert__=elsewhere)
         body_state = SymStateVector(list(b) + [0, 0, 0], date=SymDate(0), form="cartesian", frame="F",
                                     __convert__=lambda self, frame=None, form=None, same=None: self)
         ref = types.SimpleNamespace(propagate=lambda d: body_state)
@@ -262,6 +267,17 @@ def _(c):
         res = beta(orb, ref)
         c.ensure("range", -math.pi / 2 <= res <= math.pi / 2)
         c.ensure("sine", c.eq(math.sin(res), hf @ b / np.linalg.norm(hf) / np.linalg.norm(b), atol=1e-12))
+        # the same orbit numbers about another centre (a lunar orbit, in the Moon-centred frame): the plane is the one of the motion about THAT centre, the direction
+        # of the Sun is the one seen from it
+        from beyond.env.solarsystem import get_frame, get_body
+        moon = get_frame("Moon")
+        scale_r = 1.9e6 / max(np.linalg.norm(r), 1.0)
+        lun = StateVector(list(np.asarray(r) * scale_r) + list(np.asarray(v) * 0.22), Date(58000), "cartesian", moon)
+        hl = np.cross(np.asarray(lun[:3], dtype=float), np.asarray(lun[3:], dtype=float))
+        sun_e = np.asarray(get_body("Sun").propagate(Date(58000)).copy(frame="EME2000", form="cartesian"), dtype=float)[:3]
+        moon_e = np.asarray(get_body("Moon").propagate(Date(58000)).copy(frame="EME2000", form="cartesian"), dtype=float)[:3]
+        d = sun_e - moon_e
+        c.ensure("other_centre.sine", c.eq(math.sin(beta(lun, "Sun")), hl @ d / np.linalg.norm(hl) / np.linalg.norm(d), atol=1e-9))
 
 
 # ------------------------------------------------------------------------------------------
